@@ -126,6 +126,15 @@ def gen(rng, ctx):
         cd["nodes"] += [["qz", "buf", False], ["nz", "not", False]]
         cd["edges"] += [[f"{inst}.{fl['q']}", "qz"], ["qz", "nz"], ["nz", rng.choice(spare)]]
         nf += 1
+    if rng.random() < 0.1:
+        # ordinary nets named like a flattened pin (wr_EN, scan_CK ...): they are not pins
+        cand = [x for x in nodes if tps[x] in G.ALL_GATES]
+        pins_ = [p for p in fl["inputs"] + fl["outputs"] if p not in (fl["d"], fl["q"])]
+        if cand and pins_:
+            try:
+                cd = G.cd_rename(cd, {rng.choice(cand): f"{rng.choice(['wr', 'scan', 'r0', 'x'])}_{rng.choice(pins_)}"})
+            except ValueError:
+                pass
     free_in = ni + (1 if any(x[0] == "rst" for x in cd["nodes"]) else 0) + 1
     iv_mode = rng.choice(["none", "none", "0", "1", "x", "dict", "dict"])
     if iv_mode == "dict":
@@ -263,6 +272,10 @@ def check(case, ctx):
             if t2 != v_:
                 ctx.violation("sequential_unroll_initial", f"second call with the same initial_values object: flop {inst_} starts as node type {t2!r}, requested {v_!r}")
                 return
+    if not ok and isinstance(r, ValueError) and str(r).startswith("Overlapping blackbox name: ") and str(r).split(": ", 1)[1] in net.types:
+        # an ordinary net already carries the name a (non-ignored) pin gets when the flops are flattened: documented refusal
+        ctx.reject("flattened_pin_name_taken")
+        return
     if not ok:
         ctx.violation("sequential_unroll_raised", f"{what} raised {r!r}\n{getattr(r, '_tb', '')}")
         return
@@ -314,7 +327,8 @@ def check(case, ctx):
     if un.outputs != want_outputs:
         ctx.violation("sequential_unroll_outputs", f"{what}: outputs {sorted(un.outputs)} != {sorted(want_outputs)}")
         return
-    leftover = [x for x in un.types if any(x.endswith(f"{i}_{p}") or f"{i}_{p}_" in x for i in insts for p in (set(fl["inputs"]) | set(fl["outputs"])) - {D, Q})]
+    plain = {m for m in net.types if "." not in m}  # ordinary nets may be NAMED like a flattened pin (r0_CK); they are not pins
+    leftover = [x for x in un.types if any(x.endswith(f"{i}_{p}") or f"{i}_{p}_" in x for i in insts for p in (set(fl["inputs"]) | set(fl["outputs"])) - {D, Q}) and not any(x.endswith("_" + m) or x.startswith(m + "_") for m in plain)]
     if leftover:
         ctx.violation("sequential_unroll_pins_left", f"{what}: nodes of removed/ignored pins survive: {leftover[:4]}")
         return
